@@ -248,6 +248,43 @@ def hRsCalls : Handler := handler fun args =>
     pure (.list [SExp.ofNatss (rs.map fun r => r.map (·.2)), SExp.ofNat s.pos])
   | _ => none
 
+open Dask.RandomKeys in
+/-- `(rnghist (spawnKey…) nChildren draws (op…))`, `op` = `(func nblocks params)` | `perm` ↦
+    `((out…) (nameclass…) nChildren' draws')`, `out` = `((key…)…)` for an array, `(perm pos)` for a permutation;
+    `nameclass` = for every array the index (among the arrays) of the first one with the same name -/
+def hRngHist : Handler := handler fun args =>
+  match args with
+  | [key, n, d, ops] => do
+    let key ← key.toNats?
+    let n ← n.toNat?
+    let d ← d.toNat?
+    let ops ← (← ops.toList?).mapM fun o =>
+      match o with
+      | .sym "perm" => some Op.perm
+      | .list [f, b, p] => do pure (Op.call ⟨← f.toNat?, ← b.toNat?, ← p.toNat?⟩)
+      | _ => none
+    let (outs, g) := runHist ⟨⟨0, key, n⟩, d⟩ ops
+    let enc := outs.map fun o =>
+      match o with
+      | .arr seeds _ => SExp.ofNatss (seeds.map (·.spawnKey))
+      | .perm p => .list [.sym "perm", SExp.ofNat p]
+    pure (.list [.list enc, SExp.ofNats (firstIndex (histNames outs)), SExp.ofNat g.ss.nChildren, SExp.ofNat g.draws])
+  | _ => none
+
+open Dask.RandomKeys in
+/-- `(rshist pos ((func nblocks params)…))` ↦ `((windows…) (nameclass…) pos')` -/
+def hRsHist : Handler := handler fun args =>
+  match args with
+  | [pos, cs] => do
+    let pos ← pos.toNat?
+    let cs ← (← cs.toList?).mapM fun o =>
+      match o with
+      | .list [f, b, p] => do pure (Call.mk (← f.toNat?) (← b.toNat?) (← p.toNat?))
+      | _ => none
+    let (rs, s) := histRS ⟨0, pos⟩ cs
+    pure (.list [SExp.ofNatss (rs.map fun r => r.1.map (·.2)), SExp.ofNats (firstIndex (rs.map (·.2))), SExp.ofNat s.pos])
+  | _ => none
+
 /-- `(choiceguard replace nchunks)` ↦ `(ok n)` | `(raised)` -/
 def hChoiceGuard : Handler := handler fun args =>
   match args with
@@ -344,6 +381,7 @@ def table : List (String × Handler) := [
   ("mareduce", ReduceDriver.hMaReduce), ("mazip", ReduceDriver.hMaZip), ("mascan", ReduceDriver.hMaScan),
   ("mafilled", ReduceDriver.hMaFilled), ("mawhere", ReduceDriver.hMaWhere),
   ("rngcalls", ReduceDriver.hRngCalls), ("rscalls", ReduceDriver.hRsCalls), ("choiceguard", ReduceDriver.hChoiceGuard),
+  ("rnghist", ReduceDriver.hRngHist), ("rshist", ReduceDriver.hRsHist),
   ("contract", ReduceDriver.hContract), ("stackgroups", ReduceDriver.hStackGroups), ("cumsumblocks", ReduceDriver.hCumsumBlocks),
   ("aeeval", ReduceDriver.hAeEval), ("aestep", ReduceDriver.hAeStep)]
 
